@@ -375,6 +375,37 @@ def check_aliases(rep, facts, pipe, und):
         und.append('register-kinded fields could not be derived: {}'.format(e))
         kinds = None
     needed = {a for a, k in kinds.items() if 'reg' in k} if kinds is not None else None
+    if not needed:
+        # fall back on the bit-level encoder summaries (interprocedural, table-aware): a parameter is register-kinded when the
+        # summary places it as a register operand
+        try:
+            from ..encsum import all_summaries
+            sums = all_summaries(facts)
+            cls_tables, _ = encprops.class_tables(facts)
+            tables = facts.instruction_tables()
+            kinds2 = {}
+            for cls, tnames in cls_tables.items():
+                if cls == 'PseudoInstruction' or cls not in facts.classes:
+                    continue
+                attrs = facts.args_attrs(cls) or []
+                for t in tnames:
+                    for mn in tables.get(t, {}):
+                        sm = sums[mn]
+                        regp = set()
+                        for b in sm.bits:
+                            if isinstance(b, tuple) and b and b[0] != 'overlap' and isinstance(b[0], tuple) and b[0][0] == 'reg':
+                                regp.add(b[0][1])
+                        for attr, p_ in zip(attrs, sm.params):
+                            kinds2.setdefault(attr, set()).add('reg' if p_ in regp else 'other')
+                for attr, _ in facts.full_attr_order(cls):
+                    if attr not in attrs:
+                        kinds2.setdefault(attr, set()).add('other')
+            if any('reg' in k for k in kinds2.values()):
+                kinds = kinds2
+                needed = {a for a, k in kinds.items() if 'reg' in k}
+                und[:] = [u for u in und if not u.startswith('register-kinded fields could not be derived')]
+        except AnalysisError:
+            pass
     if needed is not None and not needed:
         und.append('no register-kinded field could be derived (parse_item / class tables not understood)')
     elif needed is not None:
